@@ -323,7 +323,7 @@ PLAN = {
               "prefix of generated well-formed documents. Every iterator is drained under a step bound; pointer-range, order, "
               "silence-after-error and to_cow == to_string are checked. Miri/ASan watch the pointer arithmetic. "
               "distinct_nontrivial = enumerated strings that yielded at least one link or attribute + distinct random strings"),
-        quick=[L("dbg", 1, 20000, 16), L("rel", 1, 20000, 16), L("asan", 0, 5000, 4), L("miri", 0, 150, 8, 1500)],
+        quick=[L("dbg", 1, 20000, 16), L("rel", 1, 20000, 16), L("asan", 1, 5000, 4), L("miri", 0, 60, 16, 1500)],
         thorough=[L("dbg", 2, 300000, 16, 3600), L("rel", 2, 300000, 16, 3600), L("asan", 1, 50000, 8), L("miri", 0, 1500, 16, 3600)],
     ),
     "C18": dict(
